@@ -54,6 +54,7 @@ var namedWitnesses = map[string]interface{}{
 	"C12/return-outside-function-accepted":        c12Of("delete#0", "", "function", " stmt", " ", "a", "", "", "(", " open", "", ")", " close", "\n", "{", " open", "", "return", " stmt", "", ";", "term", "", "}", " close"),
 	"C12/declaration-as-body-accepted":            c12Of("delete#4", "", "while", " stmt", "", "(", " open", "", "a", "", "", ")", " close", "", "a", " stmt", " ", "", "term", "\n", "let", " stmt", " ", "a", "", "", "", "term"),
 	"C15/empty-comment-dropped":                   c15Case{Src: "let a;\n//\nlet b; //\n", Empty: true},
+	"C15/comment-inside-added-parenthesis":        c15Case{Src: "//#1# x\n0 .n0(); let n0;", Src2: "//#1# y\n0 .n0(); let n0;", Plain: "\n0 .n0(); let n0;", Comments: []c15Comment{{Marker: 1, Text: "#1# x", Text2: "#1# y", Next: "0"}}},
 	"C15/eof-comments-dropped":                    c15Case{Src: "let a; //#1# x\n//#2# y\n", Src2: "let a; //#1# p\n//#2# q\n", Plain: "let a;\n\n", Comments: []c15Comment{{Marker: 1, Text: "#1# x", Text2: "#1# p", Trailing: true, Next: ""}, {Marker: 2, Text: "#2# y", Text2: "#2# q", Next: ""}}},
 	"C02/lone-cr-line-terminator":                 c02Case{Tree: prog(ir.N(ir.Let, "a", id("b")), ir.N(ir.Let, "c", id("d")), fdecl("f", blk(ir.N(ir.Return, "", nil), es(id("e"))))), Srcs: []string{"let a=b \rlet c=d\rfunction f(){return\re}", "let a=b;// x\rlet c=d;function f(){return;e}"}},
 	"C03/dangling-else":                           c03Case{Tree: prog(ir.N(ir.If, "", id("a"), ir.N(ir.If, "", id("b"), es(id("c")), nil), es(id("d"))))},
